@@ -12,12 +12,12 @@ from cxx2c import unwrap, qual, strip_cv
 H = 'specs/C03/protocol.h'
 TYPES = [(r'^nano::bundle_t$', 'struct nv_pbundle'), (r'^nano::csearch_t$', 'struct nv_csearch'),
          (r'^((nano::)?csearch_t::)?point_t$', 'struct nv_point'), (r'^nano::csearch_status$', 'int32_t')] + nonls.TYPES
-OPAQUE = list(common.OPAQUE) + [r'basic_string|^(nano::)?string_t$', r'proximity_t', r'nesterov_sequence']
+OPAQUE = list(common.OPAQUE) + [r'basic_string|^(nano::)?string_t$', r'proximity_t', r'^(nano::)?nesterov_sequence[12]_t$']
 MEMBERS = [(r'^solve\|nano::bundle_t', 'nv_pb_solve({self})'), (r'^econverged\|nano::bundle_t', 'nv_pb_econverged({self}, {0})'),
            (r'^sconverged\|nano::bundle_t', 'nv_pb_sconverged({self}, {0})'),
            (r'^x\|nano::bundle_t', 'nv_pb_x'), (r'^gx\|nano::bundle_t', 'nv_pb_gx'), (r'^fx\|nano::bundle_t', 'nv_pb_fx'),
            (r'^(smeared_e|delta)\|nano::bundle_t', '@nondet'),
-           (r'^search\|nano::csearch_t', 'csearch_search({self}, {&0}, {1}, {2}, {3}, {&4})')] + nonls.MEMBERS
+           (r'^search\|nano::csearch_t', '(*csearch_search({self}, {&0}, {1}, {2}, {3}, {&4}))'), (r'^(miu|reset)\|.*(proximity_t|nesterov_sequence)', '@nondet')] + nonls.MEMBERS
 CALLS = [(r'^operator\(\)\|[^|]*\|[^|]*\(lambda at', '@nondet'), (r'^infinity\|double \(\)', 'nv_dbl_inf()'),
          (r'^make\|nano::bundle_t \(', 'nv_pb_make({&0})'), (r'^make\|nano::csearch_t \(', 'nv_cs_make({&0})')] + nonls.CALLS
 
@@ -95,7 +95,7 @@ def point_binding_hook(P, n, ind):
 
 
 def fn(cname, tu, name, flt, self_struct, select=None, lambda_index=None, captures=False, extra_hooks=()):
-    vt = vectrack.VecTrack()
+    vt = vectrack.VecTrack(extracted_lambdas=['apply_nesterov_sequence'])
     return Fn(cname, tu, name, flt=flt, select=select, self_struct=self_struct, types=TYPES, calls=CALLS, members=MEMBERS,
               hooks=[nonls.vgrad_hook, triple_hook, status_write_hook, vt.expr_hook] + list(common.HOOKS) + list(extra_hooks),
               stmt_hooks=[point_binding_hook, vt.stmt_hook], opaque=OPAQUE, aggregates=['struct nv_tuple_b_f64'],
@@ -106,5 +106,43 @@ def search():
     return fn('csearch_search', 'src/solver/csearch.cpp', 'search', 'csearch_t::search', 'struct nv_csearch')
 
 
+def rqb():
+    return fn('rqb_do_minimize', 'src/solver/rqb.cpp', 'do_minimize', 'solver_rqb_t::do_minimize', 'struct nv_solver')
+
+
+FPBA_SEL = lambda d: True
+FPBA_TU = 'src/solver/fpba.cpp'
+FPBA_FLT = 'base_solver_fpba_t'
+
+
+def fpba_select(d):
+    # one of the two explicit instantiations (nesterov_sequence1_t / 2_t): the body is the same template text
+    return True
+
+
+def fpba():
+    import astload
+    f = fn('fpba_do_minimize', FPBA_TU, 'do_minimize', FPBA_FLT, 'struct nv_solver', select=FPBA_PICK)
+    # the call of the lambda names the captured variables literally (capture order is checked against the extracted lambda)
+    f.calls = [(r'^operator\(\)\|[^|]*\|[^|]*\(lambda at', 'fpba_nesterov({&1}, {&2}, {3}, &state, &sequence, function, &gx, &bundle)')] + f.calls
+    return f
+
+
+def fpba_lambda():
+    return fn('fpba_nesterov', FPBA_TU, 'do_minimize', FPBA_FLT, None, select=FPBA_PICK, lambda_index=0, captures=True)
+
+
+def FPBA_PICK(d):
+    import astload
+    # CXXMethodDecl of the class template specialisation for nesterov_sequence1_t: clang prints the specialisation's
+    # methods without template arguments of their own; the lambda's closure type names the instantiation
+    txt = str(d.get('mangledName', ''))
+    return 'nesterov_sequence1_t' in txt
+
+
 def targets(defines=()):
-    return [Target('csearch_search', [search()], H, defines=defines)]
+    done = common.fn_done
+    return [Target('csearch_search', [search()], H, defines=defines),
+            Target('rqb_do_minimize', [rqb(), search(), done()], H, replace=['csearch_search', 'solver_done'], defines=defines),
+            Target('fpba_nesterov', [fpba_lambda()], H, defines=defines),
+            Target('fpba_do_minimize', [fpba(), fpba_lambda(), search(), done()], H, replace=['csearch_search', 'solver_done', 'fpba_nesterov'], defines=defines, cbmc_flags=['--object-bits', '10'])]
